@@ -123,7 +123,8 @@ def coarse_spaces(tier, seed):
     # a programme that diverges to +inf at an interior grid time, on a membrane so small that nothing else stops the run
     div = dict(base, kind=["ideal_noniso", "nonideal_noniso"], prog=["log_sing2", "exp_overflow"], frac=[1e-15, 1e-19], dt=[1.0, 0.5], steps=[3, 4, 6, 8],
                x0=core.lat([0.45], seed), mixture=["H2O_EtOH", "S2"], P=[(1e-3, 2e-5)], ea=[(20000.0, 21000.0)], curves=[spaces.CURVE_CONFIGS["one"], spaces.CURVE_CONFIGS["two"]], init_perm=[None])
-    extra = [core.Space("diverging_programme", div, ok)]
+    cold = dict(div, prog=["poly_to_1K"], dt=[1.0], steps=[3, 4, 6], frac=[1e-3, 1e-15])  # both fluxes underflow to 0: the permeate fraction is 0/0
+    extra = [core.Space("diverging_programme", div, ok), core.Space("programme_to_1K", cold, ok)]
     return extra + [core.Space("coarse_ideal", ideal, ok), core.Space("coarse_nonideal", non, ok), core.Space("overdraw_then_backflow", back, ok)]
 
 
